@@ -114,3 +114,70 @@ Proof.
     repeat split; try assumption.
     pose proof (NoDup_incl_length Hnd Hinc) as Hl'. unfold keys in Hl'. rewrite map_length in Hl'. exact Hl'.
 Qed.
+
+(* ------------------------------------------------------------------ *)
+(* instances of <use> (UseGraph.draw_use / draw_uses) *)
+From Coq Require Import QArith.
+From Verif Require Import Base.F32 Geom.Matrix Geom.Shapes.
+
+Section UseInstProofs.
+Variable ar : arith.
+Variable rc : Q -> Q.
+Variable cv : Z -> Z -> option Q.
+
+Lemma seq_ops_app l1 l2 a b :
+  seq_ops l1 = Ok (Some a) -> seq_ops l2 = Ok (Some b) -> seq_ops (l1 ++ l2) = Ok (Some (a ++ b)).
+Proof.
+  revert a. induction l1 as [|x l1 IH]; intros a H1 H2; cbn in *.
+  - inversion H1; subst. exact H2.
+  - destruct x as [[lx|]| |]; cbn in *; try discriminate.
+    destruct (seq_ops l1) as [[y|]| |] eqn:E; cbn in *; try discriminate.
+    inversion H1; subst. rewrite (IH y eq_refl H2). cbn. rewrite app_assoc. reflexivity.
+Qed.
+
+(* what the k-th <use> of a document contributes is draw_use of the
+   definitions and of that <use>: the same whatever instances come before or
+   after it, of the same id or not *)
+Lemma use_instance_at ds us k u :
+  nth_error us k = Some u ->
+  nth_error (map (draw_use ar rc cv ds) us) k = Some (draw_use ar rc cv ds u).
+Proof. intros H. apply map_nth_error. exact H. Qed.
+
+Lemma use_after_prefix ds pre u post lpre lu lpost :
+  draw_uses ar rc cv ds pre = Ok (Some lpre) ->
+  draw_use ar rc cv ds u = Ok (Some lu) ->
+  draw_uses ar rc cv ds post = Ok (Some lpost) ->
+  draw_uses ar rc cv ds (pre ++ u :: post) = Ok (Some (lpre ++ lu ++ lpost)).
+Proof.
+  unfold draw_uses. intros H1 H2 H3. rewrite map_app. cbn [map].
+  apply seq_ops_app; [exact H1|]. cbn. rewrite H2. cbn. rewrite H3. reflexivity.
+Qed.
+
+(* a <use> without width / height draws a viewport element with the element's
+   own width and height; with both, with those of the <use>; the width and
+   height of a <use> have no effect on other elements *)
+Lemma use_size_default id x y st sw ds tx ty w h vb p clip content :
+  lookup_def ds id = Some (TView tx ty w h vb p clip content) ->
+  draw_use ar rc cv ds (UseI id x y NoSize st sw) = draw_use ar rc cv ds (UseI id x y (Size w h) st sw).
+Proof. intros H. cbn. rewrite H. reflexivity. Qed.
+
+Lemma use_size_ignored id x y sz st sw ds t :
+  lookup_def ds id = Some t -> (forall tx ty w h vb p clip content, t <> TView tx ty w h vb p clip content) ->
+  draw_use ar rc cv ds (UseI id x y sz st sw) = draw_use ar rc cv ds (UseI id x y NoSize st sw).
+Proof.
+  intros H Hn. cbn. rewrite H. destruct t; [exfalso; eapply Hn; reflexivity| |]; reflexivity.
+Qed.
+
+(* the clip rectangle and the viewBox transform of an instance are those of
+   the viewport (w, h) = view_size own (use's size) *)
+Lemma use_view_frame id x y sz st sw ds tx ty w h vb p clip content c :
+  lookup_def ds id = Some (TView tx ty w h vb p clip content) ->
+  content_ops ar rc cv content = Ok (Some c) ->
+  draw_use ar rc cv ds (UseI id x y sz st sw) =
+  Ok (Some (stroke_ops st (cascaded_width NoQ sw) ++ UTrans 1 0 0 1 x y ::
+            stroke_ops st (cascaded_width NoQ sw) ++
+            view_frame ar tx ty (fst (view_size w h sz)) (snd (view_size w h sz)) vb p clip ++ c)).
+Proof.
+  intros H Hc. cbn. rewrite H. cbn. destruct (view_size w h sz) as [vw vh]. cbn. rewrite Hc. reflexivity.
+Qed.
+End UseInstProofs.
